@@ -10,6 +10,9 @@ Spec = {"nodes": [node, ...]}; node index = creation order.  Node kinds:
          optional "alias":true   deps = [stored node t]: the source reads the SAME underlying store as
                                  node t (a second store object over it) and depends on t
                                  (tests/test_registry.py::test_source_dependent_on_write)
+  call   optional "sread":k      the call also looks into the store of registry entry k directly when it runs (a
+                                 side channel); it is ordered after k by a plain dependency, directly or through
+                                 a literal barrier (these edges are part of "deps")
   call/lit optional "late":rank  registry.add is issued after all nodes were created, in rank order
                                  (so a source can be registered before an earlier stored node)
   unpack {"k":"unpack","of":ARG,"n":int,"scope":[..]}      (plan.unpack; elements are {"u":i,"j":j})
@@ -94,6 +97,25 @@ class W:
         return f"W({self.v!r})"
 
 
+class SideRead:
+    """What a call saw when it looked into a store directly (a side channel, not an uberjob argument)."""
+
+    __slots__ = ("k", "v")
+
+    def __init__(self, k, v):
+        self.k = k
+        self.v = v
+
+    def __hash__(self):
+        return hash(("SideRead", self.k, _safe_hash(self.v)))
+
+    def __eq__(self, other):
+        return type(other) is SideRead and self.k == other.k and veq(self.v, other.v)
+
+    def __repr__(self):
+        return f"SideRead({self.k}: {self.v!r})"
+
+
 def _safe_hash(v):
     try:
         return hash(v)
@@ -121,6 +143,10 @@ def vdiff(a, b, path="$"):
         )
     if ta in (R, W):
         return vdiff(a.v, b.v, f"{path}.{ta.__name__}")
+    if ta is SideRead:
+        if a.k != b.k:
+            return f"side read of {a.k} vs {b.k} at {path}"
+        return vdiff(a.v, b.v, f"{path}.SideRead({a.k})")
     if ta in (list, tuple):
         if len(a) != len(b):
             return f"length {len(a)} vs {len(b)} at {path}"
@@ -233,7 +259,7 @@ class Gen:
     """Incremental spec construction inside one @st.composite draw."""
 
     def __init__(self, draw, registry=False, failures=False, opaque=True, flaky=False,
-                 late=False, xdeps=False, alias=False, lits=1, shared=False):
+                 late=False, xdeps=False, alias=False, lits=1, shared=False, sread=False):
         self.draw = draw
         self.nodes = []
         self.registry = registry
@@ -247,6 +273,7 @@ class Gen:
         self.xdeps = xdeps
         self.alias = alias
         self.shared = shared
+        self.sread = sread
         self.lits = lits  # weight of literal nodes / literal chains in add_any
         self.lit_refs = []
         self.cur_slots = set()
@@ -375,7 +402,27 @@ class Gen:
         node = {"k": "call", "args": args, "kwargs": kwargs, "deps": self.deps(),
                 "scope": self.scope(), "stored": bool(stored), "beh": beh, "side": side}
         self._maybe_late(node)
+        if self.sread and self.registry and side is None and d(st.integers(0, 3)) == 0:
+            self._add_side_read(node)
         return self.add(node, hashable=True)
+
+    def _add_side_read(self, node):
+        """Make the call read a registry entry's store directly, ordered after that entry by a plain
+        dependency - half of the time routed through a literal barrier."""
+        d = self.draw
+        ents = [i for i, nd in enumerate(self.nodes)
+                if (nd["k"] == "src" or nd.get("stored")) and {"n": i} in self.refs]
+        if not ents:
+            return
+        k = d(st.sampled_from(ents))
+        via = {"n": k}
+        if d(st.booleans()):
+            lit = {"k": "lit", "v": d(HASHABLE_CONSTS), "deps": [{"n": k}], "scope": self.scope(), "stored": False}
+            self.nodes.append(lit)  # not referenceable by later nodes: it exists for this ordering only
+            via = {"n": len(self.nodes) - 1}
+        node["sread"] = k
+        if via not in node["deps"]:
+            node["deps"].append(via)
 
     def _maybe_late(self, node):
         if self.late and node.get("stored") and self.draw(st.integers(0, 3)) == 0:
